@@ -294,7 +294,16 @@ struct QObj : Obj {
   long advertised_size(int) override { return static_cast<long>(sk.get_serialized_size_bytes()); }
   void feed(SK& s, const Op& op) { uint64_t n = op.uarg(0) % 6000; Rng r(op.uarg(2)); for (uint64_t i = 0; i < n; ++i) s.update(ItemGen<T>::get(static_cast<int>(op.uarg(1)), i, n, r)); }
   void cont(const Op& op) override {
-    if (op.name == "m") { SK o = fresh(k, hra); feed(o, op); if (op.arg(3) & 1) sk.merge(std::move(o)); else sk.merge(o); }
+    if (op.name == "m" || op.name == "mk") {
+      // "mk": the other sketch has half / twice the k (merges across k change min_k, section sizes, the down-sampling path)
+      int ok = k;
+      if (op.name == "mk") {
+        const int sel = static_cast<int>((op.uarg(3) >> 1) % 3);
+        const int lo = KIND == 0 ? 8 : KIND == 1 ? 4 : 2;
+        if (sel == 1) ok = std::max(lo, KIND == 1 ? (k / 2) & ~1 : k / 2); else if (sel == 2) ok = k * 2;
+      }
+      SK o = fresh(ok, hra); feed(o, op); if (op.arg(3) & 1) sk.merge(std::move(o)); else sk.merge(o);
+    }
     else feed(sk, op);
   }
   bool observe_changes_state() override { return true; }  // queries sort level zero / the base buffer (documented side effect)
@@ -578,20 +587,22 @@ inline P make(const Case& rc) {
       uint8_t lg_k = static_cast<uint8_t>(5 + a % 6);
       float p = (b % 3) == 0 ? 1.0f : (b % 3) == 1 ? 0.5f : 0.05f;
       bool ordered = c & 1;
+      const bool trim = (rc.get("t", 0) & 1) != 0;   // absent in the frozen corpus recipes
       if (f == F_THETA) {
         auto us = update_theta_sketch::builder().set_lg_k(lg_k).set_p(p).set_seed(seed).build();
         for (const Op& op : rc.ops) if (op.name == "u") { uint64_t n = op.uarg(0) % 6000; for (uint64_t i = 0; i < n; ++i) us.update(static_cast<int64_t>(op.uarg(2) % 1000 + i)); }
+        if (trim) us.trim();  // exactly k entries in estimation mode (counts at byte-width boundaries: 256 at lg_k 8)
         obj.reset(new ThetaObj(us.compact(ordered), seed, lg_k));
       } else if (f == F_TUPLE) {
         auto us = update_tuple_sketch<double>::builder().set_lg_k(lg_k).set_p(p).set_seed(seed).build();
         for (const Op& op : rc.ops) if (op.name == "u") { uint64_t n = op.uarg(0) % 6000; for (uint64_t i = 0; i < n; ++i) us.update(static_cast<int64_t>(op.uarg(2) % 1000 + i), 0.25 * static_cast<double>(i % 9)); }
-        obj.reset(new TupleObj(us.compact(ordered), seed, lg_k));
+        if (trim) us.trim(); obj.reset(new TupleObj(us.compact(ordered), seed, lg_k));
       } else {
         uint8_t nv = static_cast<uint8_t>(1 + (c >> 1) % 4);
         auto us = update_array_of_doubles_sketch::builder(nv).set_lg_k(lg_k).set_p(p).set_seed(seed).build();
         std::vector<double> vals(nv);
         for (const Op& op : rc.ops) if (op.name == "u") { uint64_t n = op.uarg(0) % 6000; for (uint64_t i = 0; i < n; ++i) { for (uint8_t j = 0; j < nv; ++j) vals[j] = static_cast<double>(i % 5) + j; us.update(static_cast<int64_t>(op.uarg(2) % 1000 + i), vals); } }
-        obj.reset(new AodObj(us.compact(ordered), seed));
+        if (trim) us.trim(); obj.reset(new AodObj(us.compact(ordered), seed));
       }
       return obj;  // compact forms: ops already consumed
     }
@@ -615,7 +626,10 @@ inline P make(const Case& rc) {
     case F_BLOOM: obj.reset(new BloomObj(bloom_filter::builder::create_by_size(1 + static_cast<uint64_t>(a % 3000), static_cast<uint16_t>(1 + b % 9), seed))); break;
     default: obj.reset(new DensObj(density_sketch<float>(static_cast<uint16_t>(2 + a % 30), static_cast<uint32_t>(1 + b % 4))));
   }
-  for (const Op& op : rc.ops) if (op.name == "u" || op.name == "m") obj->cont(op);
+  for (const Op& op : rc.ops) {
+    if (op.name == "u" || op.name == "m") obj->cont(op);
+    else if (op.name == "mk") { Op o2 = op; if (!(f >= F_KLL_F && f <= F_QS_S)) o2.name = "m"; obj->cont(o2); }  // only the quantile families merge across k
+  }
   return obj;
 }
 
@@ -624,9 +638,10 @@ inline rc::Gen<Case> recipe_gen(rc::Gen<int64_t> famgen) {
   auto nGen = rc::gen::weightedOneOf<int64_t>({{2, range(0, 1)}, {2, range(2, 12)}, {3, range(13, 300)}, {3, range(300, 3500)}});
   auto u = rc::gen::map(rc::gen::tuple(nGen, range(0, 7), range(0, 1 << 20), range(0, 63)), [](std::tuple<int64_t, int64_t, int64_t, int64_t> t) { return Op{"u", {std::get<0>(t), std::get<1>(t), std::get<2>(t), std::get<3>(t)}}; });
   auto m = rc::gen::map(rc::gen::tuple(nGen, range(0, 7), range(0, 1 << 20), range(0, 63)), [](std::tuple<int64_t, int64_t, int64_t, int64_t> t) { return Op{"m", {std::get<0>(t), std::get<1>(t), std::get<2>(t), std::get<3>(t)}}; });
-  auto ops = oplist(choose({{3, u}, {1, m}}), 1, 0.05);
+  auto mk = rc::gen::map(rc::gen::tuple(nGen, range(0, 7), range(0, 1 << 20), range(0, 63)), [](std::tuple<int64_t, int64_t, int64_t, int64_t> t) { return Op{"mk", {std::get<0>(t), std::get<1>(t), std::get<2>(t), std::get<3>(t)}}; });
+  auto ops = oplist(choose({{6, u}, {1, m}, {1, mk}}), 1, 0.05);
   return make_case({{"fam", std::move(famgen)}, {"a", range(0, 1 << 16)}, {"b", range(0, 1 << 16)}, {"c", range(0, 1 << 16)},
-                    {"seed", rc::gen::weightedOneOf<int64_t>({{3, rc::gen::just<int64_t>(0)}, {1, range(1, 1000)}})}, {"rnd", range(1, 1 << 20)}},
+                    {"seed", rc::gen::weightedOneOf<int64_t>({{3, rc::gen::just<int64_t>(0)}, {1, range(1, 1000)}})}, {"rnd", range(1, 1 << 20)}, {"t", range(0, 1)}},
                    ops);
 }
 
